@@ -46,7 +46,10 @@ class Prop:
                    "for one-way links only assignments on the source are required to reach the "
                    "target; a one-way target that was changed independently has an unknown list "
                    "after an in-place mutation of the source and is not compared until it is "
-                   "assigned again"]
+                   "assigned again",
+                   "'garbage collection of a partner at any point' is read as: an object the "
+                   "harness holds no reference to dies at the next collection (sync_trait refers to "
+                   "its partners weakly), also when a handler of its own closes over it"]
 
     def gen(self, seed):
         c = stream(seed, "config")
